@@ -309,9 +309,9 @@ def add_extra_contribs(rng, cfg, p=0.3):
     return cfg
 
 
-def gen_model_cfg(rng, family=None, contribs=None, nmol=None):
+def gen_model_cfg(rng, family=None, contribs=None, nmol=None, pool=None):
     """Seeded small-model configuration (valid region)."""
-    pool = ['H2O', 'CH4', 'CO2', 'CO']
+    pool = list(pool or ['H2O', 'CH4', 'CO2', 'CO'])
     nmol = nmol or rng.choice([1, 2, 2, 3])
     mols = rng.sample(pool, nmol)
     cfg = {
